@@ -91,6 +91,7 @@ struct Slots
    // behind the last element (inside one struct it would land in the neighbour slot unnoticed)
    // range-string destinations: a bitset of 1024 positions (own heap block) and a vector
    std::bitset<1024>*               rbP[NS];
+   std::bitset<200>*                bslP[NS];   // a bit-set destination in a heap block of its own (several words)
    std::vector<int>                  rv[NS];
    using Arr4 = int[4];
    Arr4*                             aiP[NS];
@@ -104,6 +105,7 @@ struct Slots
          aiP[n] = reinterpret_cast<Arr4*>(new int[4]());
          riP[n] = new std::array<int, 4>();
          rbP[n] = new std::bitset<1024>();
+         bslP[n] = new std::bitset<200>();
       }
    }
    ~Slots()
@@ -113,6 +115,7 @@ struct Slots
          delete[] reinterpret_cast<int*>(aiP[n]);
          delete riP[n];
          delete rbP[n];
+         delete bslP[n];
       }
    }
    Slots(const Slots&) = delete;
@@ -236,6 +239,7 @@ TypedArgBase* bindSlot(Slots& S, const std::string& slot)
    if (k == "ri") return pa::destination(S.RI(n), slot);
    if (k == "ti") return pa::destination(S.ti[n], slot);
    if (k == "bs") return pa::destination(S.bs[n], slot);
+   if (k == "bsl") return pa::destination(*S.bslP[n], slot);
    if (k == "vb") return pa::destination(S.vb[n], slot);
    if (k == "ms") return pa::destination(S.ms[n], slot);
    if (k == "mms") return pa::destination(S.mms[n], slot);
@@ -280,6 +284,7 @@ std::string dumpSlot(Slots& S, const std::string& slot)
    if (k == "ri") return joinInts(S.RI(n));
    if (k == "ti") return "(" + std::to_string(std::get<0>(S.ti[n])) + ",s" + vf::hex(std::get<1>(S.ti[n])) + "," + std::to_string(std::get<2>(S.ti[n])) + ")";
    if (k == "bs") { std::vector<int> v; for (size_t j = 0; j < 16; ++j) if (S.bs[n][j]) v.push_back(j); return joinInts(v); }
+   if (k == "bsl") { std::vector<int> v; for (size_t j = 0; j < 200; ++j) if ((*S.bslP[n])[j]) v.push_back(static_cast<int>(j)); return joinInts(v); }
    if (k == "vb") { std::vector<int> v; for (size_t j = 0; j < S.vb[n].size(); ++j) if (S.vb[n][j]) v.push_back(j); return std::to_string(S.vb[n].size()) + joinInts(v); }
    if (k == "rb") { std::vector<int> v; for (size_t j = 0; j < 1024; ++j) if ((*S.rbP[n])[j]) v.push_back(static_cast<int>(j)); return joinInts(v); }
    if (k == "rv") return joinInts(S.rv[n]);
